@@ -6,6 +6,8 @@ import (
 	"errors"
 	"fmt"
 	"io/ioutil"
+	"math"
+	"math/big"
 
 	"github.com/paulmach/orb"
 	"github.com/paulmach/orb/encoding/mvt/vectortile"
@@ -378,7 +380,7 @@ func (gd *geomDecoder) decodePolygon() (orb.Geometry, error) {
 		if len(mp) == 0 && len(p) == 0 {
 			p = append(p, r)
 		} else {
-			if r.Orientation() == orb.CCW {
+			if counterClockwise(r) {
 				mp = append(mp, p)
 				p = orb.Polygon{r}
 			} else {
@@ -472,4 +474,43 @@ func decodeValueMsg(msg *protoscan.Message) (interface{}, error) {
 // Rarely this method can result in false positives
 func dataIsGZipped(data []byte) bool {
 	return len(data) >= 2 && (data[0] == 0x1F && data[1] == 0x8B)
+}
+
+// counterClockwise reports whether a ring of tile coordinates winds
+// counter-clockwise, i.e. starts a new polygon. The coordinates are integers, so
+// the float64 area sum of Ring.Orientation is exact as long as its products and
+// partial sums stay below 2^53. For a thin ring across a very large extent they
+// do not, and the sign of the rounded sum is not the winding of the ring (it is
+// usually 0): there the sum is taken in integers.
+func counterClockwise(r orb.Ring) bool {
+	if len(r) < 3 {
+		return false
+	}
+
+	max := 0.0
+	for _, p := range r {
+		if d := math.Abs(p[0] - r[0][0]); d > max {
+			max = d
+		}
+		if d := math.Abs(p[1] - r[0][1]); d > max {
+			max = d
+		}
+	}
+
+	if 2*max*max*float64(len(r)) < 1<<53 {
+		return r.Orientation() == orb.CCW
+	}
+
+	// same sum as Ring.Orientation, without rounding.
+	var sum, a, b, u, v big.Int
+	rel := func(z *big.Int, c, origin float64) *big.Int {
+		return z.SetInt64(int64(c) - int64(origin))
+	}
+	for i := 1; i < len(r)-1; i++ {
+		a.Mul(rel(&u, r[i][0], r[0][0]), rel(&v, r[i+1][1], r[0][1]))
+		b.Mul(rel(&u, r[i+1][0], r[0][0]), rel(&v, r[i][1], r[0][1]))
+		sum.Add(&sum, a.Sub(&a, &b))
+	}
+
+	return sum.Sign() > 0
 }
